@@ -9,10 +9,11 @@ CONSTANTS
   NC = 2
   MaxBody = 3
   MaxPrefix = 2
-  SkipBytes = {0, 1, 128}
+  SkipBytes = {0, 128}
   Variants = {0}
   DimVals = {0, 3}
   MaxW = 2
+  MaxE = 2
   MaxH = 1
   DomT = 2
   PadK = 253
